@@ -52,6 +52,17 @@ STRENGTHENED = {
  'C19-r7-m1': 'a second, diverging chain per basetype (names proposed twice)',
  'C20-r7-m2': 'family feature: key names holding the separator character (pub_status, work_step), one of them the keytype of an extrapolated type',
  'C20-r7-m3': 'family feature: alias names that are not lower case',
+ 'C02-r8-m1': "free values holding the '~' of the query syntax inside (only a leading one means optional); the query round trip is judged for them",
+ 'C02-r8-m3': 'collide histories: the Sid object of the second type handed to Sid() before the plain string',
+ 'C04-r8-m3': 'an alias as the value of the leaf key in a query, after searches with the same query text were unfolded in the process',
+ 'C10-r8-m2': "the ',' list / the alias only in a filter value (none in the path part)",
+ 'C10-r8-m3': 'caught by C11 as written (searches handed over as Sid objects)',
+ 'C11-r8-m1': "folder entities whose free value holds a dot, named exactly, with an inner star, or in a ',' list",
+ 'C11-r8-m3': 'caught by C12 as written (finder_exists)',
+ 'C13-r8-m3': 'history: Sids built from dictionaries that share one key set (a concrete leaf value, then a search value), and get_with on it',
+ 'C15-r8-m1': 'histories writing under the non-default path configuration (creation with data, update, set), reads under both; the oracle tracks created / written per configuration',
+ 'C16-r8-m3': 'get_one against the first record of get(); plain Sids that do not exist as searches',
+ 'C18-r8-m3': 'the first publish of a task: lookups while the task folder does not exist, then create(get_new) three times, lookups again',
  'C20-r3-m2': 'NOT CAUGHT: needs overlapping key_patterns groups (precedence between them is not a documented convention); see DESIGN.md I.7',
 }
 res = {}
@@ -60,7 +71,7 @@ for line in open(os.path.join(V, 'notes', 'seed_sweep_results.txt')):
         k, v = line.split(' | ', 1)
         res[k.strip()] = v.strip()
 for d in sorted(os.listdir(os.path.join(V, 'seeded'))):
-    if not any(t in d for t in ('-r2-', '-r3-', '-r4-', '-r5-', '-r6-', '-r7-')):
+    if not any(t in d for t in ('-r2-', '-r3-', '-r4-', '-r5-', '-r6-', '-r7-', '-r8-')):
         continue
     dd = os.path.join(V, 'seeded', d)
     note = open(os.path.join(dd, 'note.txt')).read().strip() if os.path.exists(os.path.join(dd, 'note.txt')) else ''
@@ -69,7 +80,7 @@ for d in sorted(os.listdir(os.path.join(V, 'seeded'))):
     r = res.get(d, 'not run')
     caught = 'VIOLATION' in r
     meta = {
-        'property': prop, 'round': 2 if '-r2-' in d else (3 if '-r3-' in d else (4 if '-r4-' in d else (5 if '-r5-' in d else (6 if '-r6-' in d else 7)))),
+        'property': prop, 'round': 2 if '-r2-' in d else (3 if '-r3-' in d else (4 if '-r4-' in d else (5 if '-r5-' in d else (6 if '-r6-' in d else (7 if '-r7-' in d else 8))))),
         'breaks': note,
         'needs_to_manifest': note.splitlines()[-1] if note else '',
         'confirmed': 'patch applied in a scratch worktree: repository test suite unchanged (46 passed, 1 known failure); demo.py exits 1 with the patch and 0 without',
